@@ -2223,8 +2223,15 @@ fn core_word_const(xs: &mut State) -> Xresult {
         let val = xs.pop_data()?;
         let name = Xstr::from(name.as_str());
         if let Some(pos) = xs.dict_pos(name.as_str()) {
+            let own = pos >= xs.ctx.di_len;
             match &mut xs.dict[pos].entry {
-                Entry::Constant(old) => *old = val,
+                // defined by this very block: update it
+                Entry::Constant(old) if own => *old = val,
+                // an older constant is shadowed, as words and variables are, so that dropping
+                // a rejected source also drops its redefinitions
+                Entry::Constant(_) => {
+                    xs.dict_insert(name, Entry::Constant(val))?;
+                }
                 _ => return Err(Xerr::const_context())
             }
         } else {
